@@ -91,6 +91,11 @@ MUTANTS = {
         ('si-parse-flag', 'dashlive/scte35/splice_insert.py', "        if kwargs['duration_flag']:\n            kwargs['break_duration'] = BreakDuration.parse(r)", "        if kwargs['splice_immediate_flag']:\n            kwargs['break_duration'] = BreakDuration.parse(r)"),
         ('seg-subseg', 'dashlive/scte35/descriptors.py', "        if self.segmentation_type in {0x34, 0x36, 0x38, 0x3A}:\n            w.write(8, 'sub_segment_num')", "        if self.segmentation_type in {0x34, 0x36, 0x38}:\n            w.write(8, 'sub_segment_num')"),
         ('seg-duration-32', 'dashlive/scte35/descriptors.py', "            w.write(40, 'segmentation_duration')", "            w.write(32, 'segmentation_duration')"),
+        ('sect-length', 'dashlive/mpeg/section_table.py', "        self.section_length = 4 + ((w.bitpos() - pos - 12) // 8)", "        self.section_length = ((w.bitpos() - pos - 12) // 8)"),
+        ('sect-crc-before-length', 'dashlive/mpeg/section_table.py', "        w.overwrite(pos, 12, 'section_length')\n        data = w.toBytes()", "        data = w.toBytes()\n        w.overwrite(pos, 12, 'section_length')"),
+        ('sig-cmd-length', 'dashlive/scte35/binarysignal.py', "        self.splice_command_length = (w.bitpos() - pos - 20) // 8", "        self.splice_command_length = (w.bitpos() - pos - 12) // 8"),
+        ('sig-tier-width', 'dashlive/scte35/binarysignal.py', "        w.write(12, 'tier')\n        pos = w.bitpos()", "        w.write(16, 'tier')\n        pos = w.bitpos()"),
+        ('desc-length', 'dashlive/scte35/descriptors.py', "        self.length = (w.bitpos() - pos - 8) // 8", "        self.length = (w.bitpos() - pos) // 8"),
         ('emsg-start-floor', 'dashlive/server/events/repeating_event_base.py', 'seg_end = (seg_end * self.timescale) // representation.timescale', 'seg_end = (seg_end * self.timescale) // representation.timescale + 1'),
     ],
     'C01': [
